@@ -1,4 +1,175 @@
-(* C11 - placeholder while the proofs are being written *)
-From LV Require Import Conf.ConfModel.
-Theorem C11_placeholder : True. Proof. exact I. Qed.
-Print Assumptions C11_placeholder.
+(* C11 - the config subsystem is memory-safe and spawns nothing on arbitrary files and paths.
+   Statements only, each closed by `exact`, followed by Print Assumptions; non-vacuity Examples at the end.
+   Model: Conf/ConfModel.v (tables with C-width indices and capacities, byte-level fgets, the cell-level line
+   buffer, spifconf_find_file over lengths).  "Never reads or writes outside the parser's buffers and tables"
+   is "the model does not return Fault": every load and store of the model is checked.  The value expansion
+   (spifconf_shell_expand, property C10), the handlers, the preprocessor output and the file system are
+   parameters; what is assumed of the expansion is stated as hypotheses (expand_fits, expand_keeps_include,
+   and - for no_spawn - that it runs a command only for text with a backquote or "%exec").
+   The temporary-file clause (unique name, mode 0600) is decided by the correspondence check only. *)
+From Coq Require Import String.
+From LV Require Import Base.Buf Conf.ConfModel Conf.ConfSpec Conf.ConfInst Conf.ConfTables Conf.ConfLine Conf.ConfSafe.
+From LV Require Import Conf.ConfLife Conf.ConfFind Conf.ConfSpawn Conf.ConfInstProofs.
+Local Open Scope Z_scope.
+
+(* every anchor of tools/gen_c11.py was found in the source tree *)
+Theorem C11_source_shape : confgen_errors = [].
+Proof. exact eq_refl. Qed.
+Print Assumptions C11_source_shape.
+
+(* the widths found in the source tree: every index has at least one bit less than its capacity *)
+Theorem C11_widths :
+  (0 <= ctx_idx_bits /\ ctx_idx_bits + 1 < ctx_cnt_bits) /\
+  (0 <= ctx_state_idx_bits /\ ctx_state_idx_bits + 1 < ctx_state_cnt_bits) /\
+  (0 <= fstate_idx_bits /\ fstate_idx_bits + 1 < fstate_cnt_bits) /\
+  (0 <= builtin_idx_bits /\ builtin_idx_bits + 1 < builtin_cnt_bits).
+Proof. exact widths_ok. Qed.
+Print Assumptions C11_widths.
+
+(* parsing any byte sequence as a config file - lines at and over the limit, NUL bytes, a missing final
+   newline, any number of unmatched begin lines (the 8-bit indices wrap without leaving the tables), any
+   %include structure - never faults: the only Fault the model can return is Out_of_fuel, and the table
+   invariant (every index below its capacity, the blocks as long as the capacities say) is kept *)
+Theorem C11_conf_no_fault :
+  forall (W V : Type) (handler : Z -> harg -> Z -> W -> Z * W)
+         (expand : list Z -> V -> list Z * V * list (list Z)) (preproc_out fs : list Z -> option (list Z))
+         (progname : list Z),
+    (forall n content, fs n = Some content -> Forall is_byte content) ->
+    (forall cmd out, preproc_out cmd = Some out -> Forall is_byte out) ->
+    expand_fits V expand ->
+    expand_keeps_include V expand ->
+    forall (hw : Z) (fuel : nat) (c : conf V) (w : W) (name : list Z),
+      cinvh V hw c ->
+      match parse W V handler expand preproc_out fs progname fuel c w name with
+      | Ok (c', _, _, _) => cinvh V hw c' /\ cxt V c' = cxt V c /\ bit V c' = bit V c
+      | Fault x => x = Out_of_fuel
+      end.
+Proof. exact parse_ok. Qed.
+Print Assumptions C11_conf_no_fault.
+
+(* the arithmetic behind it, with the widths and initial capacities of the source tree, for all four tables
+   and any number of pushes *)
+Theorem C11_tables_never_wrap : forall n : nat,
+  (let '(i, c) := bump_n ctx_idx_bits ctx_cnt_bits n 0 ctx_cnt_init in 0 <= i < c /\ c <= 2 ^ (ctx_idx_bits + 1)) /\
+  (let '(i, c) := bump_n ctx_state_idx_bits ctx_state_cnt_bits n 0 ctx_state_cnt_init in 0 <= i < c /\ c <= 2 ^ (ctx_state_idx_bits + 1)) /\
+  (let '(i, c) := bump_n fstate_idx_bits fstate_cnt_bits n 0 fstate_cnt_init in 0 <= i < c /\ c <= 2 ^ (fstate_idx_bits + 1)) /\
+  (let '(i, c) := bump_n builtin_idx_bits builtin_cnt_bits n 0 builtin_cnt_init in 0 <= i < c /\ c <= 2 ^ (builtin_idx_bits + 1)).
+Proof. exact tables_never_wrap. Qed.
+Print Assumptions C11_tables_never_wrap.
+
+(* spifconf_find_file: every write into name[PATH_MAX] and full_path[PATH_MAX] is in bounds, for all lengths of
+   file and dir (below 2^31, they are objects in memory) and all component lengths (including those the
+   `short n` truncates), whatever access()/stat() answer *)
+Theorem C11_find_file_in_bounds : forall flen dlen comps probe,
+  0 <= flen < 2147483648 ->
+  (match dlen with Some d => 0 <= d < 2147483648 | None => True end) ->
+  Forall (fun c => 0 <= fst c) comps ->
+  exists r, find_file flen dlen comps probe = Ok r /\
+            match r with
+            | Some o => ff_name_hi o < conf_path_max /\ ff_full_hi o < conf_path_max
+            | None => True
+            end.
+Proof. exact find_file_in_bounds. Qed.
+Print Assumptions C11_find_file_in_bounds.
+
+(* no process is created unless a file asks for one: if no file contains a backquote, "%exec" or "preproc"
+   (any case) and the expansion runs commands only for text with a backquote or "%exec", the trace of a
+   parse contains handler calls only.  (The parser's own system() is on the %preproc line only, and the
+   text it hands to the expansion is a piece of a file.) *)
+Theorem C11_no_spawn :
+  forall (W V : Type) (handler : Z -> harg -> Z -> W -> Z * W)
+         (expand : list Z -> V -> list Z * V * list (list Z)) (preproc_out fs : list Z -> option (list Z))
+         (progname : list Z),
+    (forall n content, fs n = Some content -> Forall is_byte content) ->
+    (forall cmd out, preproc_out cmd = Some out -> Forall is_byte out) ->
+    expand_fits V expand ->
+    expand_keeps_include V expand ->
+    (forall t v, ~ In 96 t -> ~ has_ci s_pct_exec t -> snd (expand t v) = []) ->
+    (forall n content, fs n = Some content -> clean content) ->
+    forall (hw : Z) (fuel : nat) (c : conf V) (w : W) (name : list Z) (c' : conf V) (w' : W) (ev : list event) (ret : bool),
+      cinvh V hw c ->
+      clean_files V c ->
+      parse W V handler expand preproc_out fs progname fuel c w name = Ok (c', w', ev, ret) ->
+      Forall is_call ev.
+Proof. exact no_spawn. Qed.
+Print Assumptions C11_no_spawn.
+
+(* `clean` is decidable by a scan *)
+Theorem C11_clean_decidable : forall d, clean_b d = true -> clean d.
+Proof. exact clean_b_sound. Qed.
+Print Assumptions C11_clean_decidable.
+
+(* lifecycle: any sequence of init .. (register context | register built-in | parse | open)* .. free cycles,
+   from any state, runs without fault (a parse may run out of the fuel it was given) and after the last free
+   all four table pointers are NULL and the variable list is empty *)
+Theorem C11_lifecycle :
+  forall (W V : Type) (vnull : V) (handler : Z -> harg -> Z -> W -> Z * W)
+         (expand : list Z -> V -> list Z * V * list (list Z)) (preproc_out fs : list Z -> option (list Z))
+         (progname : list Z),
+    (forall n content, fs n = Some content -> Forall is_byte content) ->
+    (forall cmd out, preproc_out cmd = Some out -> Forall is_byte out) ->
+    expand_fits V expand ->
+    expand_keeps_include V expand ->
+    forall (cycles : list (list mid_op)) (c : conf V) (w : W),
+      match run W V vnull handler expand preproc_out fs progname (c, w) (history cycles) with
+      | Ok (c', _, _) => cycles <> [] -> pristine V vnull c'
+      | Fault x => x = Out_of_fuel
+      end.
+Proof. exact lifecycle. Qed.
+Print Assumptions C11_lifecycle.
+
+(* ... and a later init does not see what an earlier cycle left behind: from every state it yields the same
+   four tables *)
+Theorem C11_init_independent : forall V : Type,
+  exists cx cs ft bt, forall c : conf V,
+    exists r, init_subsystem V c = Ok r /\ cxt V r = cx /\ cst V r = cs /\ ftb V r = ft /\ bit V r = bt /\
+              vars V r = vars V c /\ nopen V r = nopen V c.
+Proof. exact init_independent. Qed.
+Print Assumptions C11_init_independent.
+
+(* the built-in table keeps the NULL-name slot that spifconf_shell_expand's scan stops at, for any number
+   of registered built-ins *)
+Theorem C11_builtins_terminated : forall (V : Type) (c : conf V) (names : list (list Z)),
+  exists c1 c2, init_subsystem V c = Ok c1 /\ register_builtins V c1 names = Ok c2 /\
+                exists k, builtin_scan V c2 0 (Z.to_nat (t_cnt (bit V c2))) = Ok k.
+Proof. exact builtins_terminated. Qed.
+Print Assumptions C11_builtins_terminated.
+
+(* ---------------- non-vacuity ---------------- *)
+Example C11_expand_assumptions_satisfiable :
+  expand_fits unit (@expand_id unit) /\ expand_keeps_include unit (@expand_id unit) /\
+  (forall t (v : unit), ~ In 96 t -> ~ has_ci s_pct_exec t -> snd (expand_id t v) = []).
+Proof. split; [apply expand_id_fits|]. split; [apply expand_id_keeps|reflexivity]. Qed.
+
+(* the invariant of C11_conf_no_fault is reachable: it holds after init, from any state *)
+Example C11_invariant_reachable : forall (c : conf unit),
+  exists c', init_subsystem unit c = Ok c' /\ cinvh unit 1 c'.
+Proof. intros c. destruct (init_ok unit c) as (c' & E & H & _). eauto. Qed.
+
+(* ... and so is the other hypothesis of C11_no_spawn *)
+Example C11_clean_files_reachable : forall (c : conf unit),
+  exists c', init_subsystem unit c = Ok c' /\ clean_files unit c'.
+Proof. exact (init_clean_files unit). Qed.
+
+(* a clean text, and texts that are not *)
+Example C11_clean_sample :
+  clean_b [60;108;118;45;49;46;48;62;10; 98;101;103;105;110;32;102;111;111;10; 37;105;110;99;108;117;100;101;32;98;10] = true /\
+  clean_b [37;80;114;101;80;114;111;99;32;120] = false /\ clean_b [120;96;108;115;96] = false /\ clean_b [37;69;88;69;67;40] = false.
+Proof. vm_compute. repeat split. Qed.
+
+(* 300 nested begin lines in the instance the check runs: no fault, the index has wrapped *)
+Definition ex_begins (n : nat) : list Z :=
+  [60;108;118;45;49;46;48;62;10] ++ concat (repeat [98;101;103;105;110;32;102;111;111;10] n).
+Example C11_sample_wrap :
+  match irun [([97], ex_begins 300)] true [108;118] [OInit; ORegCtx [102;111;111] 0; OParse 1000 [97]] with
+  | Ok ((c, _), [RUnit; RId 1; RParse evs true]) => t_idx (cst vstore c) = 300 - 256 /\ length evs = 300%nat
+  | _ => False
+  end.
+Proof. vm_compute. split; reflexivity. Qed.
+
+(* spifconf_find_file on lengths around PATH_MAX and beyond 65536 *)
+Example C11_find_sample :
+  ifind 4000 (Some 90) [(3, false); (4000, true); (70000, false); (65537, false)] = Ok (Some {| ff_name_hi := 4091; ff_full_hi := 4095; ff_found := -1 |})
+  /\ ifind 10 (Some 5) [(3, false); (4000, true); (4077, true); (4078, true); (65537, false)] = Ok (Some {| ff_name_hi := 16; ff_full_hi := 4094; ff_found := -1 |})
+  /\ ifind 5000 None [] = Ok None /\ ifind 10 (Some 2147483647) [] = Ok None.
+Proof. vm_compute. repeat split. Qed.
